@@ -13,7 +13,7 @@ BASE = ("cd /repo && /venv/bin/python -m pytest -ra -q -p no:cacheprovider --tim
         "--continue-on-collection-errors")
 m = {
     "version": 1,
-    "setup_cmd": "cd lean && lake build",
+    "setup_cmd": "python3 tools/extract.py; cd lean && lake build",
     "hooks": {"guard": "FREQUENZ_SDK_PYTHON_VERIF", "enable": "checks export FREQUENZ_SDK_PYTHON_VERIF=1 (no hook is currently needed; add-only if one appears)",
               "baseline_off_cmd": BASE, "source_commits": [], "add_only": True},
     "engines": [{"name": "lean4-models", "path": "lean/", "serves_properties": sorted(props),
